@@ -12,6 +12,7 @@ fn main() {
     let rest = &args[2..];
     match args[1].as_str() {
         "seq" => seq::main(rest),
+        "probe-load" => seq::probe_load(rest),
         "http" => http::main(rest),
         "conc" => conc::main(rest),
         x => {
